@@ -83,15 +83,21 @@ func checkC20(c *Ctx) {
 					continue
 				}
 				cl := core.CallOf(in)
-				base, field, op, ok := lockOp(cl)
+				base, field, op, ok := lockEffect(cl)
+				if _, isWrapper := lockWrappers[f]; isWrapper {
+					ok = false // a lock()/unlock() helper: judged at its call sites
+				}
 				if ok && (op == "Lock" || op == "RLock") {
 					key := fmt.Sprintf("%s of %s.%s in %s", op, short(base, 40), field, c.fname(f))
 					want := map[string]string{"Lock": "Unlock", "RLock": "RUnlock"}[op]
+					if _, _, _, direct := lockOp(cl); !direct {
+						want = "Unlock"
+					}
 					deferred := false
 					for _, b2 := range f.Blocks {
 						for _, in2 := range b2.Instrs {
 							if d, isD := in2.(*ssa.Defer); isD {
-								b3, f3, o3, ok3 := lockOp(core.CallOf(d))
+								b3, f3, o3, ok3 := lockEffect(core.CallOf(d))
 								if ok3 && b3 == base && f3 == field && o3 == want && (core.Dominates(in, d) || core.Dominates(d, in)) {
 									deferred = true
 								}
@@ -104,8 +110,8 @@ func checkC20(c *Ctx) {
 							if _, isD := x.(*ssa.Defer); isD {
 								return false
 							}
-							b3, f3, o3, ok3 := lockOp(core.CallOf(x))
-							return ok3 && b3 == base && f3 == field && o3 == want
+							b3, f3, o3, ok3 := lockEffect(core.CallOf(x))
+							return ok3 && b3 == base && f3 == field && (o3 == want || o3 == "Unlock")
 						})
 					}
 					ru2.Check(!leak, key, c.whereI(in), "released on every path", "a path reaches a return with the lock still held: every later user of the monitor blocks forever")
@@ -189,7 +195,13 @@ func checkC20(c *Ctx) {
 	ru4 := c.R.Rule("C20-R4", "no method of a monitor returns a guarded map or slice itself (callers would use it outside the lock); only copies leave the monitor", "E3 provenance of return values", 3)
 	n := 0
 	for _, m := range la.monitors {
-		for fname, mi := range m.fields {
+		var fnames []string
+		for fname := range m.fields {
+			fnames = append(fnames, fname)
+		}
+		sort.Strings(fnames)
+		for _, fname := range fnames {
+			mi := m.fields[fname]
 			if mi.guardLock() == "" {
 				continue
 			}
@@ -232,6 +244,21 @@ func init() {
 		// "each in-flight entry still resolves exactly once" under concurrent ack / expiry: the winner-takes-callback protocol (shared with C04)
 		c.ruleAckResolution("C20-T")
 	})
+}
+
+// lockEffect is lockOp extended to the module's lock()/unlock() wrapper methods.
+func lockEffect(cl *core.Call) (base, field, op string, ok bool) {
+	if base, field, op, ok = lockOp(cl); ok {
+		return
+	}
+	if cl != nil && cl.Static != nil && len(cl.Common.Args) > 0 {
+		if eff, isW := lockWrappers[cl.Static]; isW {
+			for f, e := range eff {
+				return core.Term(cl.Common.Args[0]), f, e, true
+			}
+		}
+	}
+	return "", "", "", false
 }
 
 func shortType(c *Ctx, n *types.Named) string {
